@@ -243,7 +243,10 @@ class Runner:
                     else: slots[ins[1]] = self.new(r.request(priority=ins[3], preempt=bool(ins[4])))
                     self.notes.append(('req', self.nlabel, ins[2], ins[3], env.now, bool(ins[4])))
                 elif op == 'release':
-                    if ins[3] in slots: slots[ins[1]] = self.new(self.res[ins[2]].release(slots[ins[3]]))
+                    if ins[3] in slots:
+                        slots[ins[1]] = self.new(self.res[ins[2]].release(slots[ins[3]]))
+                        if slots[ins[3]] in self.res[ins[2]].users:
+                            self.notes.append(('leaked', self.lab(slots[ins[3]]), ins[2], env.now))
                 elif op == 'cancel':
                     ev = slots.get(ins[1])
                     if ev is not None and hasattr(ev, 'cancel'): ev.cancel()
@@ -252,6 +255,8 @@ class Runner:
                     if ev is not None:
                         ev.__exit__(None, None, None)   # may raise (double cancel) before it releases
                         self.nlabel += 1                # the Release it created is a program-level event of the model too
+                        if ev in self.res[ins[2]].users or ev in self.res[ins[2]].queue:
+                            self.notes.append(('leaked', self.lab(ev), ins[2], env.now))
                 elif op == 'cput':
                     slots[ins[1]] = self.new(self.res[ins[2]].put(ins[3]))
                 elif op == 'cget':
